@@ -187,8 +187,14 @@ def _maxpool(module, grad_input, grad_output):
 		# scatter-add instead of max_unpool: a position that is the arg-max of
 		# several overlapping windows (stride < kernel_size) receives the sum of
 		# their contributions, max_unpool would keep only one of them
+		# both halves are weighted by the multipliers of the example half: the
+		# reference half's can differ (the plain-gradient fallback below routes
+		# them through the reference's own arg-max)
+		grad_out = grad_output[0].chunk(2)[0]
+		grad_out = torch.cat([grad_out, grad_out])
+
 		unpool_ = torch.zeros_like(module.input).flatten(2).scatter_add_(2,
-			indices.flatten(2), (grad_output[0] * delta_out).flatten(2)
+			indices.flatten(2), (grad_out * delta_out).flatten(2)
 			).reshape(module.input.shape)
 		unpool_delta, unpool_ref_delta = torch.chunk(unpool_, 2)
 
